@@ -77,8 +77,10 @@ func init() {
 		Doc: "the range-vector window selection (scan.selectPoints against evaluator.matrixIterSlice) and every range-function kernel and helper: " + refDoc})
 	register(&Rule{ID: "R-REFPORT-INSTANT", Min: 25, Run: func(p *core.Program) []core.Obligation { return ruleRefPort(p, "R-REFPORT-INSTANT", "instant") },
 		Doc: "every instant-function kernel and the histogram quantile helpers: " + refDoc})
-	register(&Rule{ID: "R-REFPORT-AGG", Min: 1, Run: func(p *core.Program) []core.Obligation { return ruleRefPort(p, "R-REFPORT-AGG", "agg") },
-		Doc: "the sample quantile of the quantile aggregation (aggregate.quantile against promql.quantile): " + refDoc})
+	register(&Rule{ID: "R-REFPORT-AGG", Min: 5, Run: func(p *core.Program) []core.Obligation {
+		return append(ruleRefPort(p, "R-REFPORT-AGG", "agg"), ruleRefAggArms(p, "R-REFPORT-AGG")...)
+	},
+		Doc: "the sample quantile of the quantile aggregation (aggregate.quantile against promql.quantile) and the grouped accumulators for sum, max, min, group and quantile against the arms of the same aggregation in the reference's aggregation(): " + refDoc})
 
 	mutant(Mutant{Rule: "R-REFPORT-RANGE", Name: "extrapolation-to-zero-ignores-negative-first-sample", File: "execution/function/functions.go",
 		Old: "isCounter && resultValue > 0 && samples[0].V >= 0", New: "isCounter && resultValue > 0", Expect: "extrapolatedRate"})
@@ -268,6 +270,12 @@ func (w *refWalker) walk(body ast.Node) {
 			}
 			fo, ok := obj.(*types.Func)
 			if !ok || fo.Pkg() == nil {
+				// a call of a comparator value (func(float64, float64) bool held in a variable or field)
+				// is one comparison of two floats
+				if sg, ok := info.TypeOf(x.Fun).(*types.Signature); ok && obj != nil && sg.Params().Len() == 2 && sg.Results().Len() == 1 &&
+					isFloatBasic(sg.Params().At(0).Type()) && isFloatBasic(sg.Params().At(1).Type()) && types.Identical(sg.Results().At(0).Type(), types.Typ[types.Bool]) {
+					w.sig.elems["fS(v,v)"]++
+				}
 				return true
 			}
 			if fo.Pkg().Path() == "math" && (fo.Name() == "IsNaN" || fo.Name() == "IsInf") {
@@ -518,4 +526,267 @@ func init() {
 		Old: "\tif q > 1 {\n\t\treturn math.Inf(+1)\n\t}", New: "\tif q > 1 {\n\t\tq = 1\n\t}", Expect: "quantile"})
 	mutant(Mutant{Rule: "R-REFPORT-RANGE", Name: "window-overlap-test-dropped", File: "execution/scan/matrix_selector.go",
 		Old: "if len(out) > 0 && out[len(out)-1].T >= mint {", New: "if len(out) > 0 {", Expect: "selectPoints"})
+}
+
+// ---- aggregation arms -------------------------------------------------------------------------
+
+// refAggArms: the accumulators of execution/aggregate.makeAccumulatorFunc that are ports of the arm of
+// the same aggregation in the reference's aggregation(). avg, stddev and stdvar are different
+// algorithms (sum/count instead of a running mean; Kahan-compensated Welford) and are not compared;
+// count is an integer counter in the reference (nothing to compare).
+var refAggArms = []string{"sum", "max", "min", "group", "quantile"}
+
+// caseBodies returns the bodies of all case clauses of fn for which match holds on one list element.
+func caseBodies(fn ast.Node, match func(ast.Expr) bool) []ast.Node {
+	var out []ast.Node
+	ast.Inspect(fn, func(n ast.Node) bool {
+		cc, ok := n.(*ast.CaseClause)
+		if !ok {
+			return true
+		}
+		for _, e := range cc.List {
+			if match(e) {
+				for _, st := range cc.Body {
+					out = append(out, st)
+				}
+				break
+			}
+		}
+		return true
+	})
+	return out
+}
+
+func ruleRefAggArms(p *core.Program, rule string) []core.Obligation {
+	var obs []core.Obligation
+	ref := p.Deps[pkgPromqlRef]
+	rp := p.ByPath[core.Module+"/execution/aggregate"]
+	if ref == nil || rp == nil {
+		return []core.Obligation{core.Ob(rule, "aggregation arms", "-", "", core.Lost, "packages not loaded")}
+	}
+	vocab, err := readParserVocab(p)
+	if err != nil {
+		return []core.Obligation{core.Ob(rule, "aggregation arms", "-", "", core.Lost, err.Error())}
+	}
+	refFn := findRefBody(ref, "evaluator.aggregation")
+	repoFn := findRefBody(rp, "makeAccumulatorFunc")
+	if refFn == nil || repoFn == nil {
+		return []core.Obligation{core.Ob(rule, "aggregation arms", "-", "", core.Lost, "aggregation() / makeAccumulatorFunc not found")}
+	}
+	for _, spelling := range refAggArms {
+		key := fmt.Sprintf("execution/aggregate accumulator %q decides like the reference arm", spelling)
+		tok := ""
+		for _, name := range vocab.aggregators {
+			if vocab.tokenString[name] == spelling {
+				tok = name
+			}
+		}
+		if tok == "" {
+			obs = append(obs, core.Ob(rule, key, "-", "", core.Lost, "no aggregator token with that spelling in the pinned parser"))
+			continue
+		}
+		ra := caseBodies(repoFn, func(e ast.Expr) bool {
+			bl, ok := e.(*ast.BasicLit)
+			return ok && bl.Kind == token.STRING && bl.Value == `"`+spelling+`"`
+		})
+		rb := caseBodies(refFn, func(e ast.Expr) bool {
+			se, ok := e.(*ast.SelectorExpr)
+			return ok && se.Sel.Name == tok
+		})
+		if len(ra) == 0 || len(rb) == 0 {
+			obs = append(obs, core.Ob(rule, key, "-", "", core.Lost, fmt.Sprintf("arm not found (repo %d statements, reference %d)", len(ra), len(rb))))
+			continue
+		}
+		wa, wb := newRefWalker(rp), newRefWalker(ref)
+		for _, n := range ra {
+			wa.walk(n)
+		}
+		for _, n := range rb {
+			wb.walk(n)
+		}
+		diff := sigDiff(wa.sig, wb.sig, nil)
+		site := p.Pos(ra[0].Pos())
+		if len(diff) > 0 {
+			obs = append(obs, core.Ob(rule, key, site, "makeAccumulatorFunc", core.Violated,
+				"the accumulator no longer makes the decisions of the reference arm parser."+tok+" ("+strings.Join(diff, "; ")+"); S(a,b): a<b or its negation, f: float operands, M: function of package math"))
+		} else {
+			obs = append(obs, core.Ob(rule, key, site, "makeAccumulatorFunc", core.Held, "same decision signature as the reference arm: "+wa.sig.String()))
+		}
+	}
+	// topk / bottomk: the admission test of kAggregate.aggregate against the TOPK and the BOTTOMK arm (both
+	// have the same shape; the repository shares one implementation with a comparator), and the heap order
+	for _, pr := range []struct{ repoFn, what, tok, refFn string }{
+		{"kAggregate.aggregate", "admission to the heap", "TOPK", ""},
+		{"kAggregate.aggregate", "admission to the heap", "BOTTOMK", ""},
+		{"samplesHeap.Less", "heap order", "", "vectorByValueHeap.Less"},
+		{"samplesHeap.Less", "heap order", "", "vectorByReverseValueHeap.Less"},
+	} {
+		a := findRefBody(rp, pr.repoFn)
+		var bs []ast.Node
+		name := pr.refFn
+		if pr.tok != "" {
+			name = "arm parser." + pr.tok
+			bs = caseBodies(refFn, func(e ast.Expr) bool { se, ok := e.(*ast.SelectorExpr); return ok && se.Sel.Name == pr.tok })
+		} else if b := findRefBody(ref, pr.refFn); b != nil {
+			bs = []ast.Node{b}
+		}
+		key := fmt.Sprintf("execution/aggregate.%s (%s) decides like the reference %s", pr.repoFn, pr.what, name)
+		if a == nil || len(bs) == 0 {
+			obs = append(obs, core.Ob(rule, key, "-", "", core.Lost, "function or arm not found"))
+			continue
+		}
+		wa, wb := newRefWalker(rp), newRefWalker(ref)
+		wa.walk(a)
+		for _, n := range bs {
+			wb.walk(n)
+		}
+		// k and the heap length are int in the port and int64 in the reference: only the float decisions are compared
+		for _, sg := range []*refSig{wa.sig, wb.sig} {
+			for k := range sg.elems {
+				if strings.HasPrefix(k, "i") {
+					delete(sg.elems, k)
+				}
+			}
+		}
+		if diff := sigDiff(wa.sig, wb.sig, nil); len(diff) > 0 {
+			obs = append(obs, core.Ob(rule, key, p.Pos(a.Pos()), pr.repoFn, core.Violated, "no longer makes the decisions of the reference ("+strings.Join(diff, "; ")+"); a call of the comparator counts as one comparison fS(v,v)"))
+		} else {
+			obs = append(obs, core.Ob(rule, key, p.Pos(a.Pos()), pr.repoFn, core.Held, "same decision signature as the reference: "+wa.sig.String()))
+		}
+	}
+	return obs
+}
+
+// sigDiff lists the differences between the port's and the reference's signature; allow is the expected
+// (port - reference) delta.
+func sigDiff(port, ref *refSig, allow map[string]int) []string {
+	var diff []string
+	for k, n := range ref.elems {
+		if m := port.elems[k]; m != n+allow[k] {
+			diff = append(diff, fmt.Sprintf("%s: reference %d, port %d", k, n, m))
+		}
+	}
+	for k, m := range port.elems {
+		if _, ok := ref.elems[k]; !ok && m != allow[k] {
+			diff = append(diff, fmt.Sprintf("%s: reference 0, port %d", k, m))
+		}
+	}
+	for k := range ref.consts {
+		if !port.consts[k] {
+			diff = append(diff, "constant "+k+" of the reference is missing")
+		}
+	}
+	for k := range port.consts {
+		if !ref.consts[k] {
+			diff = append(diff, "constant "+k+" does not occur in the reference")
+		}
+	}
+	sort.Strings(diff)
+	return diff
+}
+
+func init() {
+	mutant(Mutant{Rule: "R-REFPORT-AGG", Name: "grouped-max-propagates-nan", File: "execution/aggregate/scalar_table.go",
+		Old: "\t\t\t\t\tif !hasValue || value < v || math.IsNaN(value) {\n\t\t\t\t\t\tvalue = v\n\t\t\t\t\t}", New: "\t\t\t\t\tif !hasValue {\n\t\t\t\t\t\tvalue = v\n\t\t\t\t\t} else {\n\t\t\t\t\t\tvalue = math.Max(value, v)\n\t\t\t\t\t}", Expect: "\"max\""})
+	mutant(Mutant{Rule: "R-REFPORT-AGG", Name: "grouped-min-plain-comparison", File: "execution/aggregate/scalar_table.go",
+		Old: "if !hasValue || value > v || math.IsNaN(value) {", New: "if !hasValue || v < value {", Expect: "\"min\""})
+}
+
+func init() {
+	mutant(Mutant{Rule: "R-REFPORT-AGG", Name: "topk-admission-without-nan-test", File: "execution/aggregate/khashaggregate.go",
+		Old: "if h.Len() < k || h.compare(h.entries[0].total, samples[i]) || math.IsNaN(h.entries[0].total) {", New: "if h.Len() < k || h.compare(h.entries[0].total, samples[i]) {", Expect: "admission"})
+}
+
+// ---- label operations of the binary operator ---------------------------------------------------
+
+func init() {
+	register(&Rule{ID: "R-REFLABELS", Min: 1, Run: ruleRefLabels,
+		Doc: "the result label set of a vector-to-vector binary operation is derived with the label operations of the reference's resultMetric (read from the pinned module): execution/binary.signature and buildOutputSeries together perform the same number of Builder.Del, Builder.Keep and Builder.Set operations and of Labels.Get look-ups, and the same comparisons of a label value with a constant (the empty value that removes an included label)"})
+
+	mutant(Mutant{Rule: "R-REFLABELS", Name: "included-label-with-empty-value-kept", File: "execution/binary/vector.go",
+		Old: "\t\t\tif v := lowCardSeries.Metric.Get(name); v != \"\" {\n\t\t\t\tlb.Set(name, v)\n\t\t\t} else {\n\t\t\t\tlb.Del(name)\n\t\t\t}", New: "\t\t\tif v := lowCardSeries.Metric.Get(name); v != \"\" {\n\t\t\t\tlb.Set(name, v)\n\t\t\t}", Expect: "resultMetric"})
+	mutant(Mutant{Rule: "R-REFLABELS", Name: "name-dropped-twice-on-filter", File: "execution/binary/vector.go",
+		Old: "\tif !keepOriginalLabels {\n\t\tlb.Keep(grouping...)\n\t}", New: "\tif !keepOriginalLabels {\n\t\tlb.Keep(grouping...)\n\t\tlb.Del(labels.MetricName)\n\t}", Expect: "resultMetric"})
+}
+
+func labelOpSig(pk *packages.Package, nodes []ast.Node) map[string]int {
+	out := map[string]int{}
+	info := pk.TypesInfo
+	isStr := func(e ast.Expr) bool {
+		b, ok := info.TypeOf(e).Underlying().(*types.Basic)
+		return ok && b.Info()&types.IsString != 0
+	}
+	for _, n := range nodes {
+		ast.Inspect(n, func(x ast.Node) bool {
+			switch y := x.(type) {
+			case *ast.CallExpr:
+				se, ok := y.Fun.(*ast.SelectorExpr)
+				if !ok {
+					return true
+				}
+				fo, ok := info.Uses[se.Sel].(*types.Func)
+				if !ok || fo.Pkg() == nil || fo.Pkg().Path() != pkgLabels {
+					return true
+				}
+				sg, _ := fo.Type().(*types.Signature)
+				if sg == nil || sg.Recv() == nil {
+					return true
+				}
+				recv := core.NamedOf(sg.Recv().Type())
+				if recv == nil {
+					return true
+				}
+				switch recv.Obj().Name() + "." + fo.Name() {
+				case "Builder.Del", "Builder.Keep", "Builder.Set", "Labels.Get":
+					out[recv.Obj().Name()+"."+fo.Name()]++
+				}
+			case *ast.BinaryExpr:
+				if (y.Op == token.EQL || y.Op == token.NEQ) && info.TypeOf(y.X) != nil && isStr(y.X) {
+					for _, e := range []ast.Expr{y.X, y.Y} {
+						if tv, ok := info.Types[e]; ok && tv.Value != nil {
+							out["value compared with "+tv.Value.ExactString()]++
+						}
+					}
+				}
+			}
+			return true
+		})
+	}
+	return out
+}
+
+func ruleRefLabels(p *core.Program) []core.Obligation {
+	const rule = "R-REFLABELS"
+	key := "execution/binary.signature + buildOutputSeries derive labels like promql.resultMetric"
+	ref := p.Deps[pkgPromqlRef]
+	rp := p.ByPath[core.Module+"/execution/binary"]
+	if ref == nil || rp == nil {
+		return []core.Obligation{core.Ob(rule, key, "-", "", core.Lost, "packages not loaded")}
+	}
+	a1, a2, b := findRefBody(rp, "signature"), findRefBody(rp, "buildOutputSeries"), findRefBody(ref, "resultMetric")
+	if a1 == nil || a2 == nil || b == nil {
+		return []core.Obligation{core.Ob(rule, key, "-", "", core.Lost, "signature / buildOutputSeries / resultMetric not found")}
+	}
+	sa, sb := labelOpSig(rp, []ast.Node{a1, a2}), labelOpSig(ref, []ast.Node{b})
+	var diff []string
+	for k, n := range sb {
+		if sa[k] != n {
+			diff = append(diff, fmt.Sprintf("%s: reference %d, port %d", k, n, sa[k]))
+		}
+	}
+	for k, n := range sa {
+		if _, ok := sb[k]; !ok {
+			diff = append(diff, fmt.Sprintf("%s: reference 0, port %d", k, n))
+		}
+	}
+	sort.Strings(diff)
+	if len(diff) > 0 {
+		return []core.Obligation{core.Ob(rule, key, p.Pos(a2.Pos()), "buildOutputSeries", core.Violated, "the label operations differ from the reference's ("+strings.Join(diff, "; ")+")")}
+	}
+	var ks []string
+	for k, n := range sa {
+		ks = append(ks, fmt.Sprintf("%s x%d", k, n))
+	}
+	sort.Strings(ks)
+	return []core.Obligation{core.Ob(rule, key, p.Pos(a2.Pos()), "buildOutputSeries", core.Held, "same label operations: "+strings.Join(ks, "; "))}
 }
